@@ -27,5 +27,5 @@ ov="{\"Replace\":{"; sep=""
 for f in $(git -C "$W" diff --name-only); do ov="$ov$sep\"/repo/$f\":\"$W/$f\""; sep=","; done
 ov="$ov}}"; echo "$ov" > "$W/.overlay.json"
 echo "--- /verif check $ID $TIER against the change:"
-GOMAXPROCS=${SEED_GOMAXPROCS:-} VERIF_OVERLAY="$W/.overlay.json" VERIF_EVIDENCE_DIR="$W/.evidence" /verif/run.sh "$ID" "$TIER" 2>&1 | grep -E "^(VIOLATION|KNOWN|property|HARNESS|BUILD)|^  clause=" | cut -c1-400 | head -12
+GOMAXPROCS=${SEED_GOMAXPROCS:-} VERIF_OVERLAY="$W/.overlay.json" VERIF_EVIDENCE_DIR="$W/.evidence" /verif/run.sh "$ID" "$TIER" 2>&1 | grep -aE "^(VIOLATION|KNOWN|property|HARNESS|BUILD)|^  clause=" | cut -c1-400 | head -12
 echo "rc=${PIPESTATUS[0]}"
